@@ -9,13 +9,16 @@ import (
 // Value pools are pairwise disjoint and contain no blanks, so a value
 // identifies its key and row/column labels can be compared as value sets.
 var (
-	// "rev" and "sub" have values whose concatenations collide ("r1"+"2x" ==
-	// "r12"+"x") although the tuples differ (seeding round 2: key interning
-	// that trusts a separator-free hash).
+	// "rev" and "sub" have values whose concatenations collide three ways
+	// ("r1"+"23x" == "r12"+"3x" == "r123"+"x") although the tuples differ
+	// (seeding round 2: key interning that trusts a separator-free hash; round
+	// 3: a collision chain that loses its middle element). Collide mode (6% of
+	// the cases) sets both keys in every block so that the three tuples meet
+	// in one projection and are revisited.
 	CfgKeys = []string{"goos", "goarch", "pkg", "commit", "note", "rev", "sub"}
 	CfgVals = map[string][]string{
-		"rev":    {"r1", "r12"},
-		"sub":    {"2x", "x"},
+		"rev":    {"r1", "r12", "r123"},
+		"sub":    {"23x", "3x", "x"},
 		"goos":   {"linux", "darwin"},
 		"goarch": {"amd64", "arm64"},
 		"pkg":    {"p/a", "p/b"},
@@ -113,6 +116,7 @@ func Gen(r *kit.Rand, o Opts) *Case {
 	}
 
 	nf := r.Range(1, o.MaxFiles)
+	collide := r.Chance(0.06)
 	var exactEmitted = map[string]bool{}
 	for fi := 0; fi < nf; fi++ {
 		f := File{SameAs: -1}
@@ -133,7 +137,17 @@ func Gen(r *kit.Rand, o Opts) *Case {
 		}
 		cfg := map[string]string{}
 		nblk := r.Range(1, o.MaxBlocks)
+		if collide {
+			nblk = r.Range(3, 5)
+		}
 		for b := 0; b < nblk; b++ {
+			if collide {
+				j := r.Intn(3)
+				for _, k := range []string{"rev", "sub"} {
+					cfg[k] = CfgVals[k][j]
+					f.Lines = append(f.Lines, Line{K: KCfg, Key: k, Val: cfg[k]})
+				}
+			}
 			// Config edits.
 			ne := r.Range(0, 3)
 			if b == 0 {
